@@ -94,6 +94,35 @@ example : wfEnv [ { tb := [ .seq [1] 1 1, .prod [0] ⟨false, true, false, false
                   { tb := [ .seq [1] 1 1, .prod [0] ⟨false, false, false, true, false, false⟩ .keep ],
                     keepS := false, checkS := false, emptyOk := false, postErr := false } ] = false := by decide
 
+/-! the protocol at work on `mediaEnv` (a MediaList-like parent with MediaQuery-like children), evaluated by the kernel -/
+def tIdent : Tok := ⟨.other, 0, false⟩
+def tFoo : Tok := ⟨.other, 1, false⟩
+def tComma : Tok := ⟨.other, 3, true⟩
+
+/-- `screen, screen`: the first child meets the comma, hands it back, the parent pops it and goes on;
+both children are in the result and nothing is left -/
+example : (ctor mediaEnv 100 0 (.lst [tIdent, tComma, tIdent]) ⟨false, [], []⟩).out =
+      .ok true [.openc 1, .tok 0 false, .closec true, .openc 1, .tok 0 false, .closec true] ∧
+    (ctor mediaEnv 100 0 (.lst [tIdent, tComma, tIdent]) ⟨false, [], []⟩).g.saved = [] := by decide +kernel
+
+/-- `screen foo, screen` (the input of the pinned-tree defect, inside a list): the child hands `foo` back, the
+parent pops it, has no production for it and reports the error — and nothing is left -/
+example : (ctor mediaEnv 100 0 (.lst [tIdent, tFoo, tComma, tIdent]) ⟨false, [], []⟩).out =
+      .ok false [.openc 1, .tok 0 false, .closec true] ∧
+    (ctor mediaEnv 100 0 (.lst [tIdent, tFoo, tComma, tIdent]) ⟨false, [], []⟩).g.saved = [] ∧
+    (ctor mediaEnv 100 0 (.lst [tIdent, tFoo, tComma, tIdent]) ⟨true, [], []⟩).out = .raised ∧
+    (ctor mediaEnv 100 0 (.lst [tIdent, tFoo, tComma, tIdent]) ⟨true, [], []⟩).g.saved = [] := by decide +kernel
+
+/-- the hypothesis `envPartof env k = false` of `engine_no_residue` cannot be dropped: the hand-back grammar
+called stand-alone (what `MediaQuery('screen foo')` did before 24ef513) leaves `foo` behind … -/
+theorem standalone_handback_grammar_leaks :
+    (ctor mediaEnv 100 1 (.lst [tIdent, tFoo]) ⟨false, [], []⟩).g.saved = [tFoo] := by decide +kernel
+
+/-- … and the next call anywhere consumes it: `screen` parsed after that leak is not `screen` any more -/
+example : (ctor mediaEnv 100 0 (.lst [tIdent]) ⟨false, [], []⟩).out = .ok true [.openc 1, .tok 0 false, .closec true] ∧
+    (ctor mediaEnv 100 0 (.lst [tIdent]) ⟨false, [tFoo], []⟩).out ≠
+      (ctor mediaEnv 100 0 (.lst [tIdent]) ⟨false, [], []⟩).out := by decide +kernel
+
 /-! ## T12.1 — mode, preferences, serializer, profiles are restored -/
 
 /-- T12.1 `restored`. Every library call — every entry point of `CSSParser` and the module-level helpers, any
@@ -125,7 +154,7 @@ theorem mode_seen_by_fetcher (env : Env) (fuel : Nat) (p : Parser) (res : FetchR
   constructor
   · simp only [runStep, withParseSetting, decode, runSteps]
     apply seqR_head
-    rw [swallowImport_obs]
+    apply importTwice_head
     apply seqR_head
     rfl
   · simp only [runStep]
